@@ -3,6 +3,13 @@
    export of the grid and of the show grid (cases.ndjson) and of the holes of the implementation-shaped model
    (model_holes.ndjson). *)
 EXTENDS Faults, TLC, Json, SequencesExt
+\* Quick = TRUE: the cancelable-context half of the grid only for the situations in which the way the run ends
+\* differs (top level, deferred calls, the multi-step sequences, a template block); FALSE: the whole product.
+CONSTANT Quick
+GridUsed == IF Quick THEN {c \in Grid : c.opt = "none" \/ SituationClass(c.situation) \in {"top-level", "deferred-call", "multi-step"}
+                                          \/ c.situation = "tmpl_block"}
+            ELSE Grid
+MCInit == FInitIn(GridUsed)
 
 \* sanity of the tables (constant level: evaluated before the model check starts)
 ASSUME \A n \in FaultNames : FaultByName(n).name = n
@@ -16,7 +23,7 @@ ASSUME \A f \in Rows : f.stmt /\ ~f.decl =>
 ASSUME StructWalkSafe
 
 \* (LET-bound values are evaluated once; a top-level definition would be re-evaluated at every use)
-ASSUME LET G == SetToSeq(Grid)  S == SetToSeq(ShowGrid) IN
+ASSUME LET G == SetToSeq(GridUsed)  S == SetToSeq(ShowGrid) IN
        ndJsonSerialize("cases.ndjson",
           [i \in 1..(Len(G) + Len(S)) |->
              IF i <= Len(G)
@@ -26,6 +33,6 @@ ASSUME LET G == SetToSeq(Grid)  S == SetToSeq(ShowGrid) IN
 HoleRec(c) == LET f == FaultByName(c.fault) IN
               [fault |-> c.fault, situation |-> c.situation, form |-> c.form, opt |-> c.opt, class |-> f.class, op |-> f.op, pv |-> f.pv,
                model |-> ModelOutcome(c)]
-ASSUME LET H == SelectSeq(SetToSeq(Grid), LAMBDA c : ModelOutcome(c) \notin RefOutcomes(c)) IN
+ASSUME LET H == SelectSeq(SetToSeq(GridUsed), LAMBDA c : ModelOutcome(c) \notin RefOutcomes(c)) IN
        ndJsonSerialize("model_holes.ndjson", [i \in 1..Len(H) |-> HoleRec(H[i])])
 =============================================================================
